@@ -57,6 +57,25 @@ func baseOf(t *Term) *Term {
 	return t
 }
 
+// givenRecord: the base of a stored record is a value the function was handed (a parameter, or an element / field
+// of one — a record of the genesis state being imported): a plain setter or the genesis import, judged elsewhere.
+func givenRecord(L *Term) bool {
+	for L != nil {
+		L = stripConv(L)
+		switch {
+		case L.Op == "" && strings.HasPrefix(L.At, "P"):
+			return true
+		case (L.Op == "elem" || L.Op == "deref") && len(L.A) == 1:
+			L = L.A[0]
+		case strings.HasPrefix(L.Op, ".") && len(L.A) == 1:
+			L = L.A[0]
+		default:
+			return false
+		}
+	}
+	return false
+}
+
 // writtenFields lists the fields overridden in a (with ...) term.
 func writtenFields(t *Term) map[string]*Term {
 	out := map[string]*Term{}
